@@ -37,6 +37,8 @@ type Prop struct {
 	Race bool
 	// HangSecs overrides the no-progress watchdog (0 = default).
 	HangSecs int
+	// HangSecsThorough overrides it for the thorough tier (0 = HangSecs).
+	HangSecsThorough int
 	// Replay re-executes a recorded case; returns true when the violation
 	// reproduces.
 	Replay func(kind string, c json.RawMessage) (bool, string)
@@ -356,6 +358,9 @@ func RunWorker(p *Prop, tier string, seed int64, shard, nshards int, outdir stri
 	hang := 90
 	if p.HangSecs > 0 {
 		hang = p.HangSecs
+	}
+	if tier == "thorough" && p.HangSecsThorough > 0 {
+		hang = p.HangSecsThorough
 	}
 	if v := os.Getenv("VERIF_HANG_SECS"); v != "" {
 		fmt.Sscan(v, &hang)
